@@ -642,7 +642,7 @@ def main(ctx):
                 replay_obj["psi"] = [[int(complex(z).real), int(complex(z).imag)] for z in f["psi"]]
             call = (f"Optimizer({f['level']}, {describe(f['items'])}, range({f['n']})).optimize()" if op == "optimize"
                     else f"BinaryBackend({f['n']}).statevector({describe(f['items'])}, psi0)")
-            ctx.violation(sig, replay_obj, f"{call}: {f['text']} [{shape}; {len(best)} list(s) of this class in this run]")
+            ctx.violation(sig, replay_obj, f"{call}: {f['text']} [{shape}]")
     if not failures:
         if mismatches:
             ctx.violation({"kind": "correspondence"},
